@@ -98,7 +98,11 @@ CmpOK(e) ==
   /\ \A n \in 1..Len(e.LB) : DirectDraw(e.proto, e.LB[n]) => e.LB[n].v \in SeqSet(e.drawnB[K(e.LB[n].f)])
   /\ PhiDraws(e)
 
-Check(e) == CASE e.a = "hdr" -> TRUE [] e.a = "cmp" -> CmpOK(e) [] OTHER -> FALSE
+\* fault mode: one transient failure of the party's own reader at one position.  The party was sampling (the faulted Read call
+\* is one it made); it must abort - completing would mean it went on with a value its source never delivered - and must not
+\* crash or hang.  A fault that hits a constructor makes the scenario builder refuse (built = FALSE), which is an abort too.
+FaultOK(e) == (e.built /\ e.delivered) => (~e.pCompleted /\ e.pRejected /\ ~e.panic /\ ~e.timeout)
+Check(e) == CASE e.a = "hdr" -> TRUE [] e.a = "cmp" -> CmpOK(e) [] e.a = "fault" -> FaultOK(e) [] OTHER -> FALSE
 Init == l = 1
 Next == l <= Len(Trace) /\ l' = l + 1
 CaseOK == l <= Len(Trace) => Check(Trace[l])
